@@ -7,7 +7,7 @@
   passing by any amounts. `Reach c s` = reachable from an initial state by ANY label list; there is no
   bound on the length, the times, the back-off/timeout values.
 -/
-import Kopf.Lemmas.C09_Daemons
+import Kopf.Lemmas.C09_Timed
 import Kopf.Lemmas.C09_Timer
 namespace Kopf.C09
 
@@ -46,6 +46,9 @@ theorem spawn_only_when_none (c : Cfg) (s s' : St) (l : Label) (h : Reach c s)
   | kSignal st => exact absurd (by simpa using hsp) hne
   | kCancel st => exact absurd (by simpa using hsp) hne
   | kAbandon st => exact absurd (by simpa using hsp) hne
+  | pause => exact absurd (by simpa using hsp) hne
+  | resume => exact absurd (by simpa using hsp) hne
+  | kFinal => exact absurd (by simpa using hsp) hne
 
 /-! ## started when the object appears / starts matching -/
 
@@ -131,84 +134,152 @@ theorem stop_reasons (c : Cfg) (s s' : St) (h : Reach c s) :
     · cases hs; exact (cycle_spec hinv inp).2.2.2.2.2.2.2.2 hm hp
     · cases hs
   · intro r hs
-    simp only [step] at hs
-    cases hrun : s.run with
-    | none => rw [hrun] at hs; cases hs
-    | some i =>
-      rw [hrun] at hs
-      simp only at hs
-      split at hs
-      · rename_i hc
-        cases hs
-        simp only [Bool.and_eq_true, Bool.or_eq_true, beq_iff_eq] at hc
-        exact ⟨hc.2, _, rfl, (mem_set (i := i) (r := r) (now := s.now)).mpr (Or.inr rfl)⟩
-      · cases hs
+    obtain ⟨i, _, _, _, hr, _, h1⟩ := step_kBegin hs
+    subst h1
+    exact ⟨hr, _, rfl, (mem_set (i := i) (r := r) (now := s.now)).mpr (Or.inr rfl)⟩
 
-/-! ## when the operator pauses: cancelled within backoff + one killer period, whoever set the flag
+def cfgEx0 : Cfg := { backoff := some 64, timeout := some 128, polling := 3840 }
+def evEx0 : CycIn := { matching := true, marked := false, paused := false, deleted := false, ex1 := Ex.never, ex2 := Ex.never }
+
+/-! ## when the operator pauses: the stages are gone through, whoever set the flag
 
   While paused, no processing cycle escalates (the streams are down: the touch a cycle schedules for
   its delays produces an event nobody receives). The killer repeats its sweep every `killerPeriod` and
   spawns `stop_daemon` for EVERY listed daemon — also for one whose OPERATOR_PAUSING was set by
-  `pause_daemons` in a cycle (that the sweep is unconditional is a tie obligation: `Tie.sweep_unconditional`
-  over the AST, and the "round" comparison of every observed sweep).
+  `pause_daemons` in a cycle (tie obligations `Tie.sweep_unconditional`, `Tie.killer_period_eq` + the
+  "round" comparison of every observed sweep).
 
-  The transition system lets the environment choose the labels; what the killer's code adds is urgency:
-  its asyncio timers fire when due. `Dutiful c r .waiting s ls` (Model file) says exactly that for the
-  round at `r` and this daemon, and nothing else about the run. -/
+  The model is TIMED: asyncio fires due timers, so the clock (`tick`) cannot pass a round of the pausing
+  loop that has not yet started `stop_daemon` for a daemon listed before it, nor a stage deadline of a
+  running `stop_daemon` coroutine whose stage has not happened (`tickOk`, Model file). Everything else
+  is chosen by the environment. The statements below are INVARIANTS of every reachable state: no
+  hypothesis about the run. `firstDue p since` = the first round strictly after the instance was put
+  into `running_daemons` (and not before the pause): the first sweep that surely lists it. -/
 
-/-- a round is never more than one period away -/
-theorem next_round_within_period (p t : Tick) (h : p ≤ t) :
-    t ≤ nextRound p t ∧ nextRound p t < t + killerPeriod :=
-  nextRound_bounds p t h
+/-- a daemon listed since `t ≥ p` is reached by a round strictly later, within one period -/
+theorem first_round_within_period (p t : Tick) (h : p ≤ t) :
+    t < firstDue p t ∧ firstDue p t ≤ t + killerPeriod :=
+  ⟨(firstDue_gt p t).1, firstDue_le p t h⟩
 
-/-- From ANY reachable state — whatever the running instance's stopper holds already, in particular
-    OPERATOR_PAUSING set by `pause_daemons` — with the pause toggled at `p ≤ now`, along EVERY
-    label list in which the killer does its duty for the next round: once the clock is past that round
-    plus the backoff, if the memory is still known and the same instance is still the running one, its
-    task HAS BEEN cancelled — no later than `now + killerPeriod + backoff`. -/
-theorem paused_daemon_is_cancelled (c : Cfg) (s s' : St) (i' : Inst) (p : Tick) (ls : List Label)
-    (h : Reach c s) (hb : 0 ≤ c.b0) (hp : p ≤ s.now)
-    (hr : runs c s ls = some s') (hd : Dutiful c (nextRound p s.now) .waiting s ls)
-    (hlate : nextRound p s.now + c.b0 < s'.now)
-    (hk : s'.known = true) (hsame : s'.spawns = s.spawns) (hi' : s'.run = some i') :
-    ∃ tc, i'.cancelAt = some tc ∧ tc ≤ nextRound p s.now + c.b0 ∧ tc < s.now + killerPeriod + c.b0 := by
-  obtain ⟨hlo, hhi⟩ := nextRound_bounds p s.now hp
-  obtain ⟨d', hinv, _⟩ := dutiful_runs (r := nextRound p s.now) hb ls .waiting s s' s.spawns (reach_inv h)
-    (Nat.le_refl _) (Or.inr hlo) hd hr
-  have hnl : ¬ Lost s.spawns s' := by
-    rintro (h1 | h2 | h3)
-    · rw [hk] at h1; cases h1
-    · rw [hi'] at h2; cases h2
-    · omega
-  cases d' with
-  | waiting =>
-    rcases hinv with hl | hle
-    · exact absurd hl hnl
-    · exfalso; generalize c.b0 = bb at *; generalize nextRound p s.now = rr at *; unfold Tick at *; omega
-  | begun =>
-    rcases hinv with hl | ⟨hle, _⟩
-    · exact absurd hl hnl
-    · exfalso; generalize c.b0 = bb at *; generalize nextRound p s.now = rr at *; unfold Tick at *; omega
-  | served =>
-    rcases hinv with hl | hc
-    · exact absurd hl hnl
-    · obtain ⟨tc, h1, h2⟩ := hc i' hi'
-      refine ⟨tc, h1, h2, ?_⟩
-      generalize c.b0 = bb at *; generalize nextRound p s.now = rr at *; unfold Tick at *; omega
+/-- WITH a `cancellation_timeout`: in every reachable state in which the operator is paused since `p`, the
+    memory is known and an instance runs — whatever set its stop flag, `pause_daemons` or the killer —
+    either its task HAS BEEN cancelled, no later than the due round + backoff, or the clock has not passed
+    that moment yet. (With `since ≤ tf` for the time `tf` of the flag: no later than `tf + period + backoff`.) -/
+theorem paused_daemon_is_cancelled (c : Cfg) (s : St) (i : Inst) (p : Tick) (h : Reach c s)
+    (hb : 0 ≤ c.b0) (ht : 0 ≤ c.t0) (hto : c.timeout.isSome = true)
+    (hp : s.paused = some p) (hk : s.known = true) (hd : s.killerDone = false) (hi : s.run = some i) :
+    (∃ tc, i.cancelAt = some tc ∧ tc ≤ firstDue p i.since + c.b0) ∨
+    (i.cancelAt = none ∧ s.now ≤ firstDue p i.since + c.b0) := by
+  have t := reach_tinv hb ht h
+  have hinv := (reach_inv h).inst i hi
+  rcases t.rounds p i hp hk hd hi with hle | hin
+  · cases hc : i.cancelAt with
+    | none => right; exact ⟨rfl, by generalize c.b0 = bb at *; generalize firstDue p i.since = rr at *; tick_omega⟩
+    | some tc =>
+      left
+      obtain ⟨_, _, _, h3⟩ := hinv.canc tc hc
+      exact ⟨tc, rfl, by generalize c.b0 = bb at *; generalize firstDue p i.since = rr at *; tick_omega⟩
+  · exact (t.stages i hi _ hin).1 hto
 
-/-- non-vacuity of `paused_daemon_is_cancelled`: a daemon spawned and flagged by `pause_daemons` in a
-    cycle at tick 70 (pause toggled at 65; backoff 32, timeout 64). A dutiful run exists, with other
-    things happening in between (a second sneaking cycle, an unrelated killer coroutine, time steps);
-    it ends past the deadline with the same instance running — cancelled at 161 = round 129 + 32. -/
-example :
-    let c : Cfg := { backoff := some 32, timeout := some 64, polling := 3840 }
-    let ev : CycIn := { matching := true, marked := false, paused := true, deleted := false, ex1 := Ex.never, ex2 := Ex.never }
-    let ls : List Label := [.tick 20, .cycle ev, .tick 39, .kBegin .pausing, .tick 10, .kSignal 129, .tick 22, .kCancel 129, .tick 5]
-    ∃ s s', runs c (St.init 70) [.cycle ev] = some s ∧ Reach c s ∧ s.run.isSome = true ∧ nextRound 65 s.now = 129 ∧
-      runs c s ls = some s' ∧ Dutiful c 129 .waiting s ls ∧ 129 + c.b0 < s'.now ∧ s'.known = true ∧
-      s'.spawns = s.spawns ∧ (s'.run.bind (·.cancelAt)) = some 161 := by
-  intro c ev ls
-  exact ⟨_, _, rfl, ⟨70, [.cycle ev], rfl⟩, by decide, by decide, rfl, by decide, by decide, by decide, by decide, by decide⟩
+/-- For EVERY configuration — in particular the default `cancellation_timeout=None` — the same holds for the
+    abandonment: it has happened by the due round + backoff + timeout (`timeout = None` counts as 0), or the
+    clock has not passed that moment yet. -/
+theorem paused_daemon_is_abandoned (c : Cfg) (s : St) (i : Inst) (p : Tick) (h : Reach c s)
+    (hb : 0 ≤ c.b0) (ht : 0 ≤ c.t0)
+    (hp : s.paused = some p) (hk : s.known = true) (hd : s.killerDone = false) (hi : s.run = some i) :
+    (∃ ta, i.abandonAt = some ta ∧ ta ≤ firstDue p i.since + c.b0 + c.t0) ∨
+    (i.abandonAt = none ∧ s.now ≤ firstDue p i.since + c.b0 + c.t0) := by
+  have t := reach_tinv hb ht h
+  have hinv := (reach_inv h).inst i hi
+  rcases t.rounds p i hp hk hd hi with hle | hin
+  · cases hc : i.abandonAt with
+    | none =>
+      right
+      exact ⟨rfl, by generalize c.b0 = bb at *; generalize c.t0 = tt at *; generalize firstDue p i.since = rr at *; tick_omega⟩
+    | some ta =>
+      left
+      obtain ⟨_, _, _, h3⟩ := hinv.aban ta hc
+      exact ⟨ta, rfl, by generalize c.b0 = bb at *; generalize c.t0 = tt at *; generalize firstDue p i.since = rr at *; tick_omega⟩
+  · exact (t.stages i hi _ hin).2
+
+/-- What is NOT guaranteed with the default `cancellation_timeout=None`: the task is never cancelled by the
+    stopping logic — on pause, exit, deletion or mismatch it only gets the stop flag (and is abandoned). -/
+theorem never_cancelled_without_timeout (c : Cfg) (s : St) (i : Inst) (h : Reach c s) (hto : c.timeout = none)
+    (hi : s.run = some i) : i.cancelAt = none ∧ Reason.cancelled ∉ i.reasons := by
+  have hinv := (reach_inv h).inst i hi
+  have hn : i.cancelAt = none := by
+    cases hc : i.cancelAt with
+    | none => rfl
+    | some t => have := hinv.cancTo (by simp [hc]); simp [hto] at this
+  exact ⟨hn, fun hm => by have := hinv.cancIff.mp hm; simp [hn] at this⟩
+
+section PauseExamples
+
+def cfgP : Cfg := { backoff := some 32, timeout := some 64, polling := 3840 }
+def evP : CycIn := { matching := true, marked := false, paused := true, deleted := false, ex1 := Ex.never, ex2 := Ex.never }
+
+/-- pause toggled at 65 (nothing runs yet); an event still processed at 70 spawns the daemon and `pause_daemons`
+    flags it (not the killer). Listed since 70: due round 129. The killer sweeps it there, cancels at 161. -/
+def sneakRun : List Label :=
+  [.tick 65, .pause, .tick 5, .cycle evP, .tick 59, .kBegin .pausing, .kSignal 129, .tick 32, .kCancel 129, .tick 20]
+
+example : ∃ s i, runs cfgP (St.init 0) sneakRun = some s ∧ s.run = some i ∧ s.paused = some 65 ∧ s.known = true ∧
+    s.killerDone = false ∧ i.since = 70 ∧ firstDue 65 i.since = 129 ∧ i.when = some 70 ∧ i.cancelAt = some 161 ∧ s.now = 181 :=
+  ⟨_, _, rfl, rfl, by decide, by decide, by decide, by decide, by decide, by decide, by decide, by decide⟩
+
+/-- the urgency is real: the clock cannot pass the due round without the sweep, nor the backoff without the
+    cancellation — and it can wait right up to them -/
+example : runs cfgP (St.init 0) [.tick 65, .pause, .tick 5, .cycle evP, .tick 60] = none ∧
+    (runs cfgP (St.init 0) [.tick 65, .pause, .tick 5, .cycle evP, .tick 59]).isSome = true ∧
+    runs cfgP (St.init 0) [.tick 65, .pause, .tick 5, .cycle evP, .tick 59, .kBegin .pausing, .tick 33] = none ∧
+    (runs cfgP (St.init 0) [.tick 65, .pause, .tick 5, .cycle evP, .tick 59, .kBegin .pausing, .tick 32]).isSome = true := by
+  decide
+
+/-- the default configuration (no backoff, no timeout): flagged at 70, swept at 129: abandoned at once, never cancelled -/
+example : ∃ s i, runs { backoff := none, timeout := none, polling := 3840 } (St.init 0)
+      [.tick 65, .pause, .tick 5, .cycle evP, .tick 59, .kBegin .pausing, .kAbandon 129, .tick 64] = some s ∧
+    s.run = some i ∧ i.abandonAt = some 129 ∧ i.cancelAt = none ∧
+    i.reasons = [.pausing, .abandoned] :=
+  ⟨_, _, rfl, rfl, by decide, by decide, by decide⟩
+
+/-- the killer sweeps only at its rounds, and not at all once it is gone -/
+example : runs cfgP (St.init 0) [.cycle { evP with paused := false }, .tick 65, .pause, .kBegin .pausing, .tick 10, .kBegin .pausing] = none ∧
+    runs cfgP (St.init 0) [.cycle { evP with paused := false }, .kFinal, .kBegin .exiting] = none := by decide
+
+end PauseExamples
+
+/-! ## …but a daemon spawned while the operator is exiting is never asked to stop (finding F13)
+
+  FULL CLAUSE (false of the code): "an instance is asked to stop when the operator exits". The daemon
+  killer's exit sweep (`finally:`) runs once. The watchers then deplete their queues: a worker that still
+  processes an event of an object whose daemon the sweep has just stopped re-spawns it
+  (`process_spawning_cause` never looks at the operator's state — the pause has `pause_daemons`, the exit
+  has nothing), and nobody is left to stop the new instance: it runs through the cleanup handlers until
+  the hung-task sweep cancels it. -/
+
+/-- the processing cycle is blind to the operator's exit: `started_on_match` has no hypothesis about the
+    killer, so it spawns also after the killer has gone -/
+theorem respawned_while_exiting (c : Cfg) (s : St) (inp : CycIn) (h : Reach c s) (_hd : s.killerDone = true)
+    (hk : s.known = true) (hm : inp.marked = false) (hmatch : inp.matching = true) (hf : s.forever = false)
+    (hn : s.run = none) : ∃ s', step c s (.cycle inp) = some s' ∧ s'.spawns = s.spawns + 1 ∧ s'.killerDone = true := by
+  obtain ⟨s', hs, hsp⟩ := started_on_match c s inp h hk hm hmatch hf hn
+  refine ⟨s', hs, hsp, ?_⟩
+  obtain ⟨h1, _⟩ := step_cycle hs
+  subst h1
+  rw [(cycle_frame (reach_inv h) inp).2.1]; exact _hd
+
+/-- once the killer is gone, no label list ever starts a `stop_daemon` again -/
+theorem no_killer_after_final_sweep (c : Cfg) (s : St) (r : Reason) (hd : s.killerDone = true) :
+    step c s (.kBegin r) = none := by
+  simp only [step]
+  cases s.run <;> simp [hd]
+
+/-- witness: daemon running, exit sweep flags it (tick 100), it ends, the killer is gone; a queued event of
+    the object is processed at 110: a new instance, never asked to stop, 5 000 ticks later still unasked -/
+theorem exit_respawn_witness :
+    ∃ s i, runs cfgEx0 (St.init 0) [.cycle evEx0, .tick 100, .kBegin .exiting, .exit, .kFinal, .tick 10, .cycle evEx0,
+      .tick 5000] = some s ∧ s.killerDone = true ∧ s.spawns = 2 ∧ s.live = 1 ∧ s.run = some i ∧ i.reasons = [] ∧ i.since = 110 := by
+  exact ⟨_, _, rfl, by decide, by decide, by decide, rfl, by decide, by decide⟩
 
 /-! ## …except when the object disappears without the deletion mark (finding F10)
 
@@ -245,7 +316,7 @@ theorem gone_unmarked_witness :
     let c : Cfg := { backoff := some 64, timeout := some 128, polling := 3840 }
     let ev : CycIn := { matching := true, marked := false, paused := false, deleted := false, ex1 := Ex.never, ex2 := Ex.never }
     ∃ s, runs c (St.init 0) [.cycle ev, .tick 320, .cycle { ev with deleted := true }, .tick 10000] = some s ∧
-      s.known = false ∧ s.live = 1 ∧ s.run = some Inst.fresh := by
+      s.known = false ∧ s.live = 1 ∧ s.run = some (Inst.fresh 0) := by
   refine ⟨_, rfl, ?_, ?_, ?_⟩ <;> decide
 
 /-! ## stopping never crashes the operator
